@@ -283,3 +283,112 @@ def slice_session_cache(ctx):
     return _finish('session_cache', lines, descr, io, mo, d, dt,
                    'the same kind of histories with parse_cache in {dict, LRU(2), always-evicting}, repeated and near-duplicate sources '
                    '(differing in trailing blanks / newlines), failing sources', list(range(len(lines))))
+
+
+# ------------------------------------------------------------------ text-level slices (C15, C16, C18, C20)
+import layoutgen
+
+
+def slice_layout(ctx):
+    """G-layout: plain vs decorated rendering of the same program, both through PARSE on both sides"""
+    N = 150000 if big(ctx) else 10000
+    srcs = []
+    kinds = {}
+    for i in range(N):
+        r = random.Random(f'{ctx["seed"]}/layout/{i}')
+        a, b = layoutgen.layout_pair(r, kinds)
+        srcs += [a, b]
+    lines = ['PARSE ' + hx(s) for s in srcs]
+    io, mo, d, dt = corr.compare(lines)
+    nontriv = [i for i, a in enumerate(io) if a.startswith('ok')]
+    r = _finish('layout', lines, srcs, io, mo, d, dt,
+                'random programs rendered plain and decorated (blanks/tabs, comments, line breaks in brackets, ; vs newline, blank '
+                'statements, CRLF, trailing commas, redundant parentheses, the three call styles); non-trivial = accepted', nontriv, _parse_dist(io))
+    r['generator_branches'] = kinds
+    return r
+
+
+def slice_errmsg(ctx):
+    """erroneous texts: stray token / truncation in multi-line programs; PARSE output incl. offending position and message"""
+    N = 300000 if big(ctx) else 20000
+    srcs = []
+    for i in range(N):
+        r = random.Random(f'{ctx["seed"]}/errmsg/{i}')
+        srcs.append(layoutgen.error_text(r))
+    lines = ['PARSE ' + hx(s) for s in srcs]
+    io, mo, d, dt = corr.compare(lines)
+    nontriv = [i for i, a in enumerate(io) if a.startswith('E ')]
+    return _finish('errmsg', lines, srcs, io, mo, d, dt,
+                   'valid multi-line programs (newline / CRLF / ; separators, multi-line bracketed literals, comments) broken by one '
+                   'stray token at a random position or truncated at a random character; compared: error kind, offending position, '
+                   'full message; non-trivial = rejected', nontriv, _parse_dist(io))
+
+
+def slice_names(ctx):
+    """NAMES over program texts (every syntactic role), %...% names, names next to strings / comments / keywords, invalid texts"""
+    N = 120000 if big(ctx) else 10000
+    srcs = []
+    for i in range(N):
+        r = random.Random(f'{ctx["seed"]}/names/{i}')
+        k = r.randrange(4)
+        if k == 0:
+            srcs.append(layoutgen.error_text(r))
+        elif k == 1:
+            srcs.append(layoutgen.layout_pair(r)[1])
+        elif k == 2:
+            srcs.append(proggen.eval_case(r)[1])
+        else:
+            parts = [r.choice(['%a b%', '%x.y%', '%a+b%', 'name', 'for', 'and', 'andy', 'not_x', '"str name"', "'q'", '# c name\n', 'f(',
+                               ')', 'x.y', '1e5', '12ab', '_u', 'ж', '%unterminated', '=>', 'x=1', 'del', 'True', 'None_', '$', '%%', '% %'])
+                     for _ in range(r.randint(1, 8))]
+            srcs.append(r.choice([' ', '', '\n', ';']).join(parts))
+    lines = ['NAMES ' + hx(s) for s in srcs]
+    io, mo, d, dt = corr.compare(lines)
+    nontriv = [i for i, a in enumerate(io) if len(a) > 7]
+    return _finish('names', lines, srcs, io, mo, d, dt,
+                   'list_names over erroneous texts, decorated programs, G-prog programs and token soups with %...% names, keywords, '
+                   'strings, comments; non-trivial = at least one name yielded', nontriv)
+
+
+def slice_malformed(ctx):
+    """C16: arbitrary strings, truncations at every character, unbalanced brackets, unterminated strings through PARSE and NAMES;
+    programs failing in each listed way through EVAL (error class compared)"""
+    N = 60000 if big(ctx) else 6000
+    lines, descr = [], []
+    for i in range(N):
+        r = random.Random(f'{ctx["seed"]}/malformed/{i}')
+        k = r.randrange(5)
+        if k == 0:
+            s = ''.join(r.choice(gens.LEX_ALPHABET + ['x', '(', ')', '{', '}', ',', ':', '|', '<', 'f', '2']) for _ in range(r.randint(0, 14)))
+        elif k == 1:
+            t = layoutgen.layout_pair(r)[1]
+            s = t[:r.randrange(len(t) + 1)]
+        elif k == 2:
+            s = r.choice(['(', '[', '{', '((', '[(', '"', "'", 'r"', '"\\', 'f(', 'f(1,', '{1:', 'x =', 'x +=', 'del', 'del x[', 'a if', 'a if b else',
+                          'x =>', '(a, b) =>', 'not', '-', 'a.', 'a |', 'a[1:', '%x', '1 +\n', '[1,\n', ')', ']', '}', 'for', 'while 1'])
+        else:
+            s = layoutgen.error_text(r)
+        for c in ('PARSE', 'NAMES'):
+            lines.append(c + ' ' + hx(s))
+            descr.append(c + ' ' + repr(s))
+    planted = ['undefined_var', 'nofn(1)', 'u += 1', '[1,2][5]', '{"a": 1}["b"]', 'pop([])', 'x = []\nx[3]', '"abc"[7]', 'd = {}\nd["k"]',
+               'for', 'x = while', '1 $ 2', '1 +', 'f(']
+    ctxs = ['{E}', '[1, {E}]', 'len({E})', '{{"k": {E}}}', '{{{E}: 1}}', '[1,2,3][{E}:]', '[1,2,3][{E}]', 'v => {E}', 'apply(v => {E}, 1)',
+            '{E} if True else 1', '1 if {E} else 2', '1 if False else {E}', 'x = {E}', 'x = [0]\nx[0] = {E}', 'x = [0]\nx[0] += {E}',
+            'x = 1\nx += {E}', '-{E}', 'not {E}', '1 + {E}', '{E} and 1', 'map([1], v => {E})', 'str({E})']
+    for p in planted:
+        for c in ctxs:
+            if '\n' in p and not c.startswith('{E}'):
+                continue
+            src = c.replace('{E}', p) if '\n' not in p else p
+            lines.append(gens2.eval_line(src, budget=200))
+            descr.append('EVAL ' + src)
+    for b in (1, 2, 3, 5):
+        lines.append(gens2.eval_line('f = n => f(n + 1)\nf(0)', budget=b))
+        descr.append(f'EVAL budget {b}')
+    io, mo, d, dt = corr.compare(lines)
+    nontriv = [i for i, a in enumerate(io) if a.startswith('E ') or a.startswith('err') or ' E ' in a]
+    return _finish('malformed', lines, descr, io, mo, d, dt,
+                   'random character strings, truncations of valid programs at a random character, unbalanced / unterminated fragments '
+                   '(PARSE and NAMES); each listed language-level failure planted at 22 syntactic positions (EVAL); non-trivial = an error outcome',
+                   nontriv)
